@@ -27,6 +27,8 @@ const (
 	ActFire  = 101
 	ActNoarg = 102
 	ActSlow  = 103
+	ActLend  = 104
+	ActRelay = 105
 	SigTick  = 110
 	SigTock  = 111
 	PropLvl  = 120
@@ -45,6 +47,7 @@ type ProbeImpl struct {
 	// ValidatorYields makes the property validator take its time (that many
 	// forced scheduling decisions) before it answers.
 	ValidatorYields int
+	lent            probe.LentProxy
 }
 
 func (p *ProbeImpl) Activate(a bus.Activation, h probe.ProbeSignalHelper) error {
@@ -96,6 +99,27 @@ func (p *ProbeImpl) Slow(tok probe.Token) (probe.Token, error) {
 	return tok, nil
 }
 
+// Lend hands the object a proxy to an object hosted by the caller.
+func (p *ProbeImpl) Lend(q probe.LentProxy) error {
+	p.Env.Executed("lend", p.Obj, "", "")
+	p.mu.Lock()
+	p.lent = q
+	p.mu.Unlock()
+	return nil
+}
+
+// Relay calls echo on the lent object and returns its answer.
+func (p *ProbeImpl) Relay(tok probe.Token) (probe.Token, error) {
+	p.mu.Lock()
+	q := p.lent
+	p.mu.Unlock()
+	if q == nil {
+		return tok, fmt.Errorf("nothing was lent to object %d", p.Obj)
+	}
+	p.Env.Executed("relay", p.Obj, "", "")
+	return q.Echo(tok)
+}
+
 func (p *ProbeImpl) OnLevelChange(v int32) error {
 	for i := 0; i < p.ValidatorYields; i++ {
 		zzsim.Yield("h.validator")
@@ -104,6 +128,21 @@ func (p *ProbeImpl) OnLevelChange(v int32) error {
 		return fmt.Errorf("level cannot be negative (%d)", v)
 	}
 	return nil
+}
+
+// LentImpl is an object hosted by a client and lent to a service.
+type LentImpl struct {
+	Env *core.Env
+	Obj int
+}
+
+func (l *LentImpl) Activate(a bus.Activation, h probe.LentSignalHelper) error { return nil }
+func (l *LentImpl) OnTerminate()                                              {}
+
+func (l *LentImpl) Echo(tok probe.Token) (probe.Token, error) {
+	n := l.Env.Executed("echo", l.Obj, tokOf(tok).Key(), tok.Text)
+	tok.Text = fmt.Sprintf("%s|o%d|x%d", tok.Text, l.Obj, n)
+	return tok, nil
 }
 
 // World is a running server with a probe service.
